@@ -487,9 +487,14 @@ def run_ops(oplist, stream='?', result=None, batch=4000):
                 result.mismatches.append((op, real, ans))
         buf.clear()
 
+    hangs = 0
     for op in oplist:
+        if hangs >= 3:
+            break       # the real code keeps hanging: enough evidence, do not burn the time budget
         try:
             real = with_alarm(lambda: ops.run_real(op))
+            if isinstance(real, dict) and real.get('err') == ['Hang']:
+                hangs += 1
             json.dumps(real)
         except Unrepresentable:
             result.skipped_unrepresentable += 1
